@@ -374,8 +374,7 @@ class Erf(MathFunction):
         """Create a new Erf."""
         if isinstance(argument, RealValue | Zero):
             return FloatValue(math.erf(float(argument)))
-        if isinstance(argument, (ConstantValue)):
-            return ComplexValue(math.erf(complex(argument)))
+        # A complex literal is kept symbolic: math.erf only handles real numbers
         return MathFunction.__new__(cls)
 
     def __init__(self, argument):
